@@ -1090,4 +1090,34 @@ example : DecodeM (bv [97, 49, 112, 118, 55, 119, 119, 119, 114]) = some ([], []
 example : DecodeM (bv [97, 49, 108, 108, 116, 116, 97, 108, 53, 109]) = some ([], [], some ("base32.ErrNonZeroPadding", some 3#64)) := by
   decide +kernel
 
+/-! the remaining guards (added after the third audit, REPORT-3 finding 13) -/
+
+/-- 91 bytes: `ErrInvalidLength` as a `SyntaxError` at offset 90 -/
+example : DecodeM (List.replicate 91 97#8) = some ([], [], some ("ErrInvalidLength", some 90#64)) := by decide +kernel
+
+/-- "aqqqqqq": no separator (a plain error, no offset) -/
+example : DecodeM (bv [97, 113, 113, 113, 113, 113, 113]) = some ([], [], some ("ErrMissingSeparator", none)) := by
+  decide +kernel
+
+/-- "1qqqqqq": the separator at position 0 -/
+example : DecodeM (bv [49, 113, 113, 113, 113, 113, 113]) = some ([], [], some ("ErrInvalidSeparator", some 0#64)) := by
+  decide +kernel
+/-- "aaa1qqq": fewer than six characters after the separator -/
+example : DecodeM (bv [97, 97, 97, 49, 113, 113, 113]) = some ([], [], some ("ErrInvalidSeparator", some 3#64)) := by
+  decide +kernel
+
+/-- a byte ≥ 0x80 in the data part: offset of that byte -/
+example : DecodeM (bv [97, 49, 0x80, 113, 113, 113, 113, 113]) = some ([], [], some ("ErrInvalidCharacter", some 2#64)) := by
+  decide +kernel
+/-- a non-charset ASCII character (`b`) in the data part -/
+example : DecodeM (bv [97, 49, 98, 113, 113, 113, 113, 113, 113]) = some ([], [], some ("ErrInvalidCharacter", some 2#64)) := by
+  decide +kernel
+
+/-- `Encode`: empty prefix -/
+example : EncodeM [] [] = some ([], some ("ErrInvalidLength", none)) := by decide +kernel
+/-- `Encode`: a prefix of 84 characters (84 + 1 + 6 > 90) -/
+example : EncodeM (List.replicate 84 97#8) [] = some ([], some ("ErrInvalidLength", none)) := by decide +kernel
+/-- `Encode`: a space in the prefix -/
+example : EncodeM (bv [32]) [] = some ([], some ("ErrInvalidCharacter", none)) := by decide +kernel
+
 end Iota.Tie.Bech32ApiCode
